@@ -321,7 +321,8 @@ def tainted(v, depth=0):
         return False
     if v == ('param', 1):
         return True
-    if v and v[0] == 'call' and v[2] in ('std::clone::Clone::clone',):
+    if v and v[0] == 'call' and v[2] in ('std::clone::Clone::clone', 'std::option::Option::take', 'std::mem::take', 'std::mem::replace'):
+        # an owned value: a clone, or what was MOVED OUT of the signal (`(*cell).take()`): it no longer lives in the signal's memory
         return False
     if v and v[0] in ('ref', 'rawptr') and len(v) > 2:
         # a reference to a local: tainted iff the local's value is
@@ -587,7 +588,10 @@ def g6(ctx):
 
 @rule('G7', ['C09', 'C07', 'C16'], 'only wake / wait / will_wake look at the waker kind; Signal.waker is written only by constructors, wait and register_waker')
 def g7(ctx):
-    readers_ok = {SIGK + 'wake', SIGK + 'wait', SIGK + 'will_wake'}
+    # the OWNER of a signal may look at the kind of its own waker (a future deciding whether the waker it stored still wakes the
+    # task that polls it: `register_waker` with `clone_from`, a `has_waker_of(cx.waker())` helper); what must stay flavour-blind
+    # is the PEER side, which reaches the signal through the terminator
+    readers_ok = {SIGK + 'wake', SIGK + 'wait', SIGK + 'will_wake', SIGK + 'register_waker', fam.SEND_POLL, fam.RECV_POLL}
     writers_ok = {SIGK + 'new_sync', SIGK + 'new_async', SIGK + 'new_async_ptr', SIGK + 'register_waker', SIGK + 'wait'}
     for key, b in ctx.facts.bodies.items():
         for blk in b.blocks:
@@ -693,6 +697,15 @@ def g8(ctx):
                 if v[0] == 'agg' and v[1].endswith('KanalWaker') and v[2] == 'Async' and v[3]:
                     c = v[3][0]
                     ok = c[0] == 'call' and c[2] == 'std::clone::Clone::clone' and c[3][0] == ('param', 2)
+            if not ok and not wrs:
+                # `match &mut self.waker { Async(w) => w.clone_from(waker), .. }`: Waker::clone_from leaves `*w` a waker that wakes the
+                # same task as `waker` (it skips the clone when it already does) - the in-place spelling of the assignment
+                cf = [e for e in p.events if e.kind == 'call' and e.name == 'std::clone::Clone::clone_from']
+                if len(cf) == 1 and len(cf[0].args) == 2 and cf[0].args[1] == ('param', 2):
+                    d0 = cf[0].args[0]
+                    pl0 = d0[1] if d0[0] in ('ref', 'rawptr') else None
+                    if pl0 is not None and contains(pl0, ('pfield', ('deref', ('param', 1)), 'waker')) and 'Async' in fmt(d0):
+                        ok = True
             if not ok:
                 ctx.violate(b.key, p, 'register_waker does not store KanalWaker::Async(clone of its argument)')
     b = body('will_wake', True)
